@@ -1,0 +1,54 @@
+//go:build verif
+
+// Machine-checked contracts for govc (see /verif/DESIGN.md). Comments only;
+// compiled only with the build tag "verif".
+
+package rules
+
+// the default rule of a factory is set once, while the factory is under construction
+//@ initonly (*ruleFactory).initWithDefaultRule: defaultRule hasDefaultRule defaultBacktracking
+
+// ---- C14: stage-wise inheritance, backtracking inheritance, rejection of malformed rules ----
+
+//@ func (*ruleFactory).createExecutePipeline
+//@   props C14
+//@   logged pipe
+
+//@ func (*ruleFactory).createOnErrorPipeline
+//@   props C14
+//@   logged onerr
+
+// own_s := what the rule itself defines for stage s (result of the pipeline builders, logged);
+// the effective stage is own_s when non-empty, else the default rule's, else empty.
+//@ func (*ruleFactory).CreateRule
+//@   props C14
+//@   watch old(f.defaultRule)
+//@   watch old(f.defaultBacktracking)
+//@   watch ruleConfig.Matcher.BacktrackingEnabled
+//@   watch old(*ruleConfig.Matcher.BacktrackingEnabled)
+//@   watch len(pipe.ret0[old(pipe.n)])
+//@   watch len(pipe.ret1[old(pipe.n)])
+//@   watch len(pipe.ret2[old(pipe.n)])
+//@   watch len(onerr.ret0[old(onerr.n)])
+//@   ensures ret1 == nil ==> typeIs(ret0, *ruleImpl) && unbox(ret0, *ruleImpl) != nil
+//@   ensures ret1 == nil ==> pipe.n == old(pipe.n) + 1 && onerr.n == old(onerr.n) + 1
+//@   ensures ret1 == nil && len(pipe.ret0[old(pipe.n)]) > 0 ==> unbox(ret0, *ruleImpl).sc == pipe.ret0[old(pipe.n)]
+//@   ensures ret1 == nil && len(pipe.ret0[old(pipe.n)]) == 0 && old(f.defaultRule) != nil ==> unbox(ret0, *ruleImpl).sc == old(f.defaultRule.sc)
+//@   ensures ret1 == nil && len(pipe.ret1[old(pipe.n)]) > 0 ==> unbox(ret0, *ruleImpl).sh == pipe.ret1[old(pipe.n)]
+//@   ensures ret1 == nil && len(pipe.ret1[old(pipe.n)]) == 0 && old(f.defaultRule) != nil ==> unbox(ret0, *ruleImpl).sh == old(f.defaultRule.sh)
+//@   ensures ret1 == nil && len(pipe.ret1[old(pipe.n)]) == 0 && old(f.defaultRule) == nil ==> len(unbox(ret0, *ruleImpl).sh) == 0
+//@   ensures ret1 == nil && len(pipe.ret2[old(pipe.n)]) > 0 ==> unbox(ret0, *ruleImpl).fi == pipe.ret2[old(pipe.n)]
+//@   ensures ret1 == nil && len(pipe.ret2[old(pipe.n)]) == 0 && old(f.defaultRule) != nil ==> unbox(ret0, *ruleImpl).fi == old(f.defaultRule.fi)
+//@   ensures ret1 == nil && len(pipe.ret2[old(pipe.n)]) == 0 && old(f.defaultRule) == nil ==> len(unbox(ret0, *ruleImpl).fi) == 0
+//@   ensures ret1 == nil && len(onerr.ret0[old(onerr.n)]) > 0 ==> unbox(ret0, *ruleImpl).eh == onerr.ret0[old(onerr.n)]
+//@   ensures ret1 == nil && len(onerr.ret0[old(onerr.n)]) == 0 && old(f.defaultRule) != nil ==> unbox(ret0, *ruleImpl).eh == old(f.defaultRule.eh)
+//@   ensures ret1 == nil && len(onerr.ret0[old(onerr.n)]) == 0 && old(f.defaultRule) == nil ==> len(unbox(ret0, *ruleImpl).eh) == 0
+//@   ensures ret1 == nil ==> len(unbox(ret0, *ruleImpl).sc) > 0
+//@   ensures ret1 == nil && ruleConfig.Matcher.BacktrackingEnabled != nil && old(f.defaultRule) == nil ==> unbox(ret0, *ruleImpl).allowsBacktracking == old(*ruleConfig.Matcher.BacktrackingEnabled)
+//@   ensures ret1 == nil && ruleConfig.Matcher.BacktrackingEnabled != nil && old(f.defaultRule) != nil ==> unbox(ret0, *ruleImpl).allowsBacktracking == old(*ruleConfig.Matcher.BacktrackingEnabled)
+//@   ensures ret1 == nil && ruleConfig.Matcher.BacktrackingEnabled == nil && old(f.defaultRule) != nil ==> unbox(ret0, *ruleImpl).allowsBacktracking == old(f.defaultBacktracking)
+//@   ensures ret1 == nil && ruleConfig.Matcher.BacktrackingEnabled == nil && old(f.defaultRule) == nil ==> !unbox(ret0, *ruleImpl).allowsBacktracking
+//@   ensures old(f.mode) == config.ProxyMode && ruleConfig.Backend == nil ==> ret1 != nil
+//@   ensures ret1 == nil && len(ruleConfig.EncodedSlashesHandling) == 0 ==> unbox(ret0, *ruleImpl).slashesHandling == config2.EncodedSlashesOff
+//@   ensures ret1 == nil && len(ruleConfig.EncodedSlashesHandling) != 0 ==> unbox(ret0, *ruleImpl).slashesHandling == ruleConfig.EncodedSlashesHandling
+//@   ensures ret1 == nil ==> !unbox(ret0, *ruleImpl).isDefault
